@@ -75,7 +75,21 @@ def fn_source(text, name):
             pe += 1
             if depth == 0:
                 break
-        a, b = text.find("{", pe), text.find(";", pe)
+        # … and past the return type: the first `{` or `;` OUTSIDE brackets decides (`-> [u8; Self::SIZE] {` is a definition)
+        q, depth, a, b = pe, 0, -1, -1
+        while q < len(text):
+            ch = text[q]
+            if ch in "[(":
+                depth += 1
+            elif ch in "])":
+                depth -= 1
+            elif depth == 0 and ch == "{":
+                a = q
+                break
+            elif depth == 0 and ch == ";":
+                b = q
+                break
+            q += 1
         if a != -1 and (b == -1 or a < b):
             m = m_
             mend = e_
@@ -1269,6 +1283,30 @@ FUNCS = [
                    ('return Err(CopiaError::ProtocolError(format!( "Payload exceeds maximum size: {payload_len} > {MAX_PAYLOAD_SIZE}" )));', "return none"),
                    ("header.write_to(writer)?;", "out := out ++ header.encode"),
                    ("writer.write_all(&payload)?;", "out := out ++ payload")]),
+    dict(group="codec", file="src/protocol.rs", name="encode", sig=None,
+         lean="def headerEncodeGen (self_ : FrameHeader) : Bytes := Id.run do\n"
+              "  -- `self.magic[i]`, `len[i]`, `flg[i]`: the i-th byte (`getD i 0`; the arrays have 4, 4 and 2 bytes)",
+         calls={}, paths={},
+         verbatim=[("let len = self.length.to_le_bytes();", "let len := le 4 self_.length"),
+                   ("let flg = self.flags.to_le_bytes();", "let flg := le 2 self_.flags"),
+                   ("let buf = [ self.magic[0], self.magic[1], self.magic[2], self.magic[3], len[0], len[1], len[2], len[3], self.msg_type as u8, self.version, flg[0], flg[1], ];",
+                    "let buf := [self_.magic.getD 0 0, self_.magic.getD 1 0, self_.magic.getD 2 0, self_.magic.getD 3 0, len.getD 0 0, len.getD 1 0, len.getD 2 0, len.getD 3 0, "
+                    "self_.msgType, self_.version, flg.getD 0 0, flg.getD 1 0]"),
+                   ('debug_assert_eq!(buf[0], b\'C\', "encoded magic must match");', ""),
+                   ("buf", "return buf")]),
+    dict(group="codec", file="src/protocol.rs", name="decode", sig=None, option=True, no_loop=True,
+         lean="def headerDecodeGen (buf : Bytes) : Option FrameHeader := Id.run do\n"
+              "  -- `buf` is the 12-byte array; `MessageType::from_u8` and `validate` are the regenerated `Gen.fromU8Arms` / `Gen.headerValid`",
+         calls={}, paths={},
+         verbatim=[("let magic: [u8; 4] = [buf[0], buf[1], buf[2], buf[3]];", "let magic := [buf.getD 0 0, buf.getD 1 0, buf.getD 2 0, buf.getD 3 0]"),
+                   ("let length = u32::from_le_bytes([buf[4], buf[5], buf[6], buf[7]]);", "let length := ofLe [buf.getD 4 0, buf.getD 5 0, buf.getD 6 0, buf.getD 7 0]"),
+                   ("let msg_type = MessageType::from_u8(buf[8])?;", "let msg_type := buf.getD 8 0\nif !(Copia.Gen.fromU8Arms.contains msg_type) then\n  return none"),
+                   ("let version = buf[9];", "let version := buf.getD 9 0"),
+                   ("let flags = u16::from_le_bytes([buf[10], buf[11]]);", "let flags := ofLe [buf.getD 10 0, buf.getD 11 0]"),
+                   ("let header = Self { magic, length, msg_type, version, flags, };",
+                    "let header : FrameHeader := { magic := magic, length := length, msgType := msg_type, version := version, flags := flags }"),
+                   ("header.validate()?;", "if !(Copia.Gen.headerValid header.magic header.version header.length) then\n  return none"),
+                   ("Ok(header)", "return (some header)")]),
     dict(group="codec", file="src/protocol.rs", name="read_from", sig=None, option=True, no_loop=True,
          lean="def readHeaderGen (inp : Bytes) : Option (FrameHeader × Bytes) := Id.run do",
          idents={"PROTOCOL_MAGIC": "Copia.Gen.protocolMagic"}, paths={}, calls={}, strings_plain=True,
